@@ -35,7 +35,7 @@ Template directives (all start with `//@@`; payloads in <<< >>> may span lines):
                                          are replaced by `text`; dropped lines are reported in the evidence
   //@@ FORWHILE n                        rule R9: the n-th loop, `for x in a..b { B }`, is desugared to
                                          `let mut verif_it = a; let verif_end = b; while verif_it < verif_end { let x = verif_it; verif_it += 1; B }`
-                                         (Verus for-loops do not support `continue`)
+                                         (Verus for-loops do not support `continue`); `for x in (a..b).rev()` likewise, counting down
   //@@ BODY                              emit `{ transformed body }`
   //@@ CHECKSIG <file> :: <hdr>.. <<<sig>>>  only checks that a (bodiless) declaration
                                          still has this signature
@@ -528,12 +528,20 @@ def transform_body(body, dirs, log):
             if n >= len(lp):
                 raise LostAnchor(f'loop #{n} not found (have {len(lp)})')
             k, br = lp[n]
+            mr = re.fullmatch(r'for\s+(\w+)\s+in\s+\((.+?)\.\.(?!=)(.+?)\)\s*\.rev\(\)\s*', body[k:br], flags=re.S)
             m = re.fullmatch(r'for\s+(\w+)\s+in\s+(.+?)\.\.(?!=)(.+?)\s*', body[k:br], flags=re.S)
-            if not m:
-                raise LostAnchor(f'FORWHILE loop #{n}: head {body[k:br]!r} is not `for x in a..b`')
-            var, lo_, hi_ = m.group(1), m.group(2).strip(), m.group(3).strip()
-            edits.append((k, br, f'let mut verif_it: usize = {lo_}; let verif_end: usize = {hi_}; while verif_it < verif_end '))
-            edits.append((br + 1, br + 1, f' let {var} = verif_it; verif_it = verif_it + 1;'))
+            if mr:
+                # `(a..b).rev()` yields b-1, b-2, .., a
+                var, lo_, hi_ = mr.group(1), mr.group(2).strip(), mr.group(3).strip()
+                sfx = f'_{var}'
+                edits.append((k, br, f'let verif_lo{sfx}: usize = {lo_}; let mut verif_it{sfx}: usize = {hi_}; while verif_it{sfx} > verif_lo{sfx} '))
+                edits.append((br + 1, br + 1, f' verif_it{sfx} = verif_it{sfx} - 1; let {var} = verif_it{sfx};'))
+            elif m:
+                var, lo_, hi_ = m.group(1), m.group(2).strip(), m.group(3).strip()
+                edits.append((k, br, f'let mut verif_it: usize = {lo_}; let verif_end: usize = {hi_}; while verif_it < verif_end '))
+                edits.append((br + 1, br + 1, f' let {var} = verif_it; verif_it = verif_it + 1;'))
+            else:
+                raise LostAnchor(f'FORWHILE loop #{n}: head {body[k:br]!r} is not `for x in a..b` / `for x in (a..b).rev()`')
             log['R9 for-range loop desugared to while'] = log.get('R9 for-range loop desugared to while', 0) + 1
         elif kind == 'CUTBLOCK':
             anchor, rep = d[1], d[2]
